@@ -18,6 +18,7 @@ import (
 
 	"github.com/bytom/bytom/database"
 	"github.com/bytom/bytom/database/storage"
+	"github.com/bytom/bytom/proposal"
 	"github.com/bytom/bytom/protocol"
 	"github.com/bytom/bytom/protocol/bc"
 	"github.com/bytom/bytom/protocol/bc/types"
@@ -52,6 +53,7 @@ type obs struct {
 	Contracts map[string]int   `json:"contracts"`
 	MainTxs   []int            `json:"maintxs"`
 	ValidBest int              `json:"validbest"`
+	Invalid   []int            `json:"invalid"`
 	Submitted []int            `json:"submitted"`
 }
 type doc struct {
@@ -82,8 +84,14 @@ func kindType(name string) uint32 {
 	return storage.NormalUTXOType
 }
 
+var proposeMode bool
+
 func replay(d doc) *divergence {
-	node.ConfigureLedger()
+	if proposeMode {
+		node.ConfigureLedgerAs(2, 1) // the node is validator 1 of 2: it proposes in its own slots, its lone vote never justifies
+	} else {
+		node.ConfigureLedger()
+	}
 	env, err := node.Open(memkv.New())
 	if err != nil {
 		vh.Fatal("cannot open a fresh node: %v", err)
@@ -305,6 +313,39 @@ func replay(d doc) *divergence {
 		}
 		break
 	}
+	if proposeMode && d.Obs.ValidBest == d.Obs.Best && len(d.Obs.Invalid) == 0 {
+		// (stored branches that do not apply can shadow any new block: recorded finding of C11, not judged here)
+		// C38: the node builds and signs a block for its own slot on its best chain from whatever its pool
+		// holds; fed back, the block must be accepted and become the best block
+		parent := w.Blocks[d.Obs.Best]
+		ts := w.F.SlotTime(parent, 1, 2)
+		var blk *types.Block
+		var perr error
+		var pan interface{}
+		func() {
+			defer func() { pan = recover() }()
+			blk, perr = proposal.NewBlockTemplate(env.Chain, nil, nil, ts, time.Hour, 2*time.Hour)
+		}()
+		if pan != nil || perr != nil || blk == nil {
+			return &divergence{last, "C38", "template-fails", fmt.Sprintf("NewBlockTemplate on best block %d (height %d) failed: err=%v panic=%v", d.Obs.Best, parent.Height, perr, pan)}
+		}
+		var ids []int
+		for _, tx := range blk.Transactions[1:] {
+			ids = append(ids, m.TxIDOf[tx.ID])
+		}
+		orphan, err, blocked := w.Process(node.CopyBlock(blk, nil), 15*time.Second)
+		cls := "mid-epoch"
+		if blk.Height%2 == 1 {
+			cls = "pays-rewards"
+		}
+		if blocked || err != nil || orphan {
+			return &divergence{last, "C38", "own-block-rejected:" + cls, fmt.Sprintf("the block the node proposed at height %d with menu transactions %v (pool submissions %v) was not accepted by the node itself: orphan=%v err=%v blocked=%v", blk.Height, ids, d.Obs.Submitted, orphan, err, blocked)}
+		}
+		if bh := env.Chain.BestBlockHash(); *bh != blk.Hash() {
+			return &divergence{last, "C38", "own-block-not-best:" + cls, fmt.Sprintf("the block the node proposed at height %d (transactions %v) was stored but did not become the best block", blk.Height, ids)}
+		}
+		return nil
+	}
 	// property-level fork choice: the best block of the valid tree
 	if d.Obs.ValidBest != d.Obs.Best {
 		return &divergence{last, "C11", "invalid-branch-shadows-valid", fmt.Sprintf("after %s: best block is %d although block %d is the fork-choice winner of the valid block tree (a stored branch that does not apply keeps being selected)", what, o.Best, d.Obs.ValidBest)}
@@ -346,6 +387,7 @@ func main() {
 		if len(args) > 1 {
 			stride, _ = strconv.Atoi(args[1])
 		}
+		proposeMode = len(args) > 2 && args[2] == "propose"
 		cases, calls := 0, 0
 		shapes := map[string]bool{}
 		want := func(idx int) bool {
@@ -384,6 +426,11 @@ func main() {
 		vh.Summary(map[string]interface{}{"partial": true, "cases": cases, "calls": calls, "distinct": len(shapes)})
 		return
 	}
+	mode := "replay"
+	if len(os.Args) > 1 && os.Args[1] == "propose" {
+		mode = "propose"
+		os.Args[1] = "replay"
+	}
 	if len(os.Args) < 4 || os.Args[1] != "replay" {
 		vh.Fatal("usage: ledger replay <tlc-output> <workers> [stride]")
 	}
@@ -393,7 +440,7 @@ func main() {
 		stride = os.Args[4]
 	}
 	st, _ := strconv.Atoi(stride)
-	flaky := vh.RunPool(nw, []string{os.Args[2], stride}, func(idx int, tail string) {
+	flaky := vh.RunPool(nw, []string{os.Args[2], stride, mode}, func(idx int, tail string) {
 		d := loadCase(os.Args[2], idx*st+int(vh.Seed())%st)
 		vh.Violation("C12:ledger:panic", fmt.Sprintf("the node process died while replaying the scenario:\n%s", tail),
 			map[string]interface{}{"engine": "ledger", "calls": d.Calls, "obs": d.Obs, "prop": "C12"})
